@@ -104,7 +104,7 @@ def model_case(vi, mem_kind, max_entries, hist, cmds):
     return " ".join(parts)
 
 
-def run(sessions, sel_pos=False, calls=1, extra_rc=""):
+def run(sessions, sel_pos=False, calls=1, extra_rc="", end_eof=False):
     """sessions: list of dicts {vi, hist (list of str), cmds (list of (name[,arg]))}.
     Returns per session: {"impl": pty result, "steps": [snapshot tuple after each command], "model": model steps}"""
     jobs, mlines = [], []
@@ -113,6 +113,9 @@ def run(sessions, sel_pos=False, calls=1, extra_rc=""):
         if s.get("hist") is not None:
             scn["histories"] = [{"name": "h", "kind": "mem", "lines": s["hist"]}]
         chunks = [typed(c)[0] for c in s["cmds"]]
+        if end_eof:
+            # hang up at the end: the call ends, the child reports the contents of its history sources and exits
+            chunks.append(("eof",))
         jobs.append({"scenario": scn, "chunks": chunks, "inputrc": inputrc(s["vi"], s.get("rc", "") + extra_rc)})
         if any(c[0] == "raw" for c in s["cmds"]):
             s["modelled"] = False
